@@ -531,8 +531,9 @@ class Runner:
                     rec = curpair.get(fromName)
                     raw = list(rawEntInfo)
                     # several pairs in flight at the creator: the one this half belongs to, by its entanglement info
+                    # (socket + create id: the pairs of ONE request are made one after the other)
                     mine = [r for r in allpairs.get(fromName, []) if r["done"] is None and r["sock"] == from_sock
-                            and len(raw) > 2 and r["cid"] == raw[1] and (r["typ"] != "K" or r["qid"] == raw[2])]
+                            and len(raw) > 1 and r["cid"] == raw[1]]
                     if len(mine) == 1:
                         rec = mine[0]
                     ev.append(("pair", fromName, n, from_sock, to_sock, rec, list(rawEntInfo)))
